@@ -46,7 +46,7 @@ CHECKS["C06"] = dict(
     note="Coq kernel+VM; hand model tied by correspondence; UFL build_integral_data; cffi/gcc",
     design="DESIGN.md S.2 and 3 C06")
 CHECKS["C17"] = dict(
-    technique="Coq proof: (1) overloads translated from lnodes.py on every run (tr_smart): value preservation for all operands and stores in any commutative ring, float_product, correspondence Python result tree vs translated function on every operand-kind pair; (2) optimiser: hand model Opt.v of optimizer.py tied by node-by-node comparison of Opt.optimize with the real result on every captured optimize() call (optcorr.py); section fusion and loop fusion proved, for all code lists and all inputs, to refine the code under a decidable side condition evaluated by vm_compute per captured call (Footprint.v: footprints of LN.exec, commutation of non-interfering statements, verified reorder checker, block merge, n-ary loop fusion; OptSound.v); optimize = licm after the fusing passes; licm: algebraic half for all products, bookkeeping of temporaries for all assignment lists (LicmProps.v: numbered consecutively, each declared once, never shared between two products), and per exported kernel pair (passes on / off) symbolic execution of both kernels in the free term algebra (homomorphism theorem Sym.run_hom) and comparison of the outputs as polynomials over the inputs with Coq's ring normaliser (SymEq.kernels_equiv_sound), evaluated by vm_compute for every admissible entity/permutation value; LN.exec vs gcc bit-exact",
+    technique="Coq proof: (1) overloads translated from lnodes.py on every run (tr_smart): value preservation for all operands and stores in any commutative ring, float_product, correspondence Python result tree vs translated function on every operand-kind pair; (2) optimiser: hand model Opt.v of optimizer.py tied by node-by-node comparison of Opt.optimize with the real result on every captured optimize() call (optcorr.py); section fusion and loop fusion proved, for all code lists and all inputs, to refine the code under a decidable side condition evaluated by vm_compute per captured call (Footprint.v: footprints of LN.exec, commutation of non-interfering statements, verified reorder checker, block merge, n-ary loop fusion; OptSound.v); optimize = licm after the fusing passes; licm: algebraic half for all products, bookkeeping of temporaries for all assignment lists (LicmProps.v: numbered consecutively, each declared once, never shared between two products; a rewritten assignment keeps the value of its product when the temporary holds the hoisted factors' product), and per exported kernel pair (passes on / off) symbolic execution of both kernels in the free term algebra (homomorphism theorem Sym.run_hom) and comparison of the outputs as polynomials over the inputs with Coq's ring normaliser (SymEq.kernels_equiv_sound), evaluated by vm_compute for every admissible entity/permutation value; LN.exec vs gcc bit-exact",
     text="LExpr.__neg__/__add__/__radd__/__sub__/__rsub__/__mul__/__rmul__/__div__/__rdiv__ and float_product build trees with the same numeric value as the unsimplified operation for all operand kinds/values (exact arithmetic; IEEE corner cases excluded). Optimiser half: for each sampled form, the kernel generated with fuse_sections/fuse_loops/licm and the kernel generated without them are proved to return the same tensor for ALL real inputs (literals, division and math functions uninterpreted; ring operations of Z, i.e. a polynomial identity) and all listed entity/permutation combinations (all of them when at most 8 in the quick tier / 200 in the thorough tier, else a sample). Not proved: the passes as functions on arbitrary ASTs; kernels with conditionals are compared by execution on random inputs.",
     note="Coq kernel+VM; tr_smart.py; exporter; ring hypotheses (satisfiable: SmartQc.v); Ring_polynom (stdlib) for the normal forms; atoms (input cells, literals, quotients, function applications) compared syntactically; forms sampled",
     design="DESIGN.md S.2 and 3 C17")
